@@ -203,6 +203,12 @@ static void op_crash_sync(Exec& x, const Json& op, int)
 		{
 			size_t before = x.out.viol.size();
 			x.check_parity_invariant(when);
+			// --force-realloc moves every file to a new position and is documented as "not having data protection during the
+			// operation": the parity may be cut before the content that forgets the old positions is saved
+			if (std::find(spec.opts.begin(), spec.opts.end(), std::string("-R")) != spec.opts.end()) {
+				for (size_t i = x.out.viol.size(); i > before; --i)
+					if (x.out.viol[i - 1].prop == "C06" && x.out.viol[i - 1].msg.find("too short") != std::string::npos) { x.out.viol.erase(x.out.viol.begin() + (long)(i - 1)); x.probe("crash.realloc_window_without_protection"); }
+			}
 			for (size_t i = before; i < x.out.viol.size(); ++i) {
 				x.out.viol[i].focus = focus;
 				// Known shape: sync shrinks the parity files before it saves the content that forgets the trailing
@@ -276,6 +282,9 @@ static void op_crash_sync(Exec& x, const Json& op, int)
 			CmdSpec again;
 			again.cmd = "sync";
 			if (!additions_only) again.opts = { "-E", "-Z" }; // the same overrides the interrupted command had
+			// an interrupted --force-realloc is completed by running it again (a plain sync would rightly ask for --force-full
+			// when the interruption fell between the parity cut and the content save)
+			if (std::find(spec.opts.begin(), spec.opts.end(), std::string("-R")) != spec.opts.end()) again.opts.push_back("-R");
 			again.sched_seed = mix64(spec.sched_seed, cs.k);
 			// after an undo the completing sync may be (rightly) refused, leaving the crash state judged above as it is
 			bool keep = x.check_parity_every_cmd;
@@ -360,6 +369,11 @@ static void op_crash_fix(Exec& x, const Json& op, int)
 	int64_t pre_now = x.sb.now_s;
 	unsigned pre_cmd_index = x.sb.cmd_index;
 	auto reset = [&]() { x.sb.restore_all(pre); x.sb.now_s = pre_now; x.sb.cmd_index = pre_cmd_index; };
+	// the array was damaged on purpose; a fix restricted by a filter (-m, -e, -d, -f) is not expected to repair all of it:
+	// the parity oracle after each command would only re-report that damage
+	bool saved_parity_oracle = x.check_parity_every_cmd;
+	if (!spec.opts.empty()) x.check_parity_every_cmd = false;
+	struct RestoreOracle { Exec& x; bool v; ~RestoreOracle() { x.check_parity_every_cmd = v; } } restore_oracle{ x, saved_parity_oracle };
 	CmdResult ref = x.cmd(spec);
 	unsigned M = ref.info.mut_count;
 	Snap want = data_only(x, x.sb.snapshot(x.sb.data_tops()));
